@@ -25,6 +25,24 @@ CLAIMED.update({
     'C14': dict(engine='P', design='§8 C14', technique='bounded symbolic execution of both grammars\' rule functions on z3 with the set-iteration order (hash seed) as a solver variable; PYTHONHASHSEED replay',
                 text='within the bounds: no exception, arguments unchanged, second call equal, result independent of the iteration order of the shared-variable set, seen-rule filter is all-or-nothing on the erased pair, English results independent of nb marks, unary tables return exactly their targets in order'),
 })
+NOTE_A = ('trusted: libz3 4.8.12 / z3 5.1.0, g++, libstdc++ containers (run for real), the symbolic scalar sym::Float (linear terms over integer score variables; exp handled exactly for exp/exp comparisons), '
+          'the independent CKY oracle, the mechanical translation of parsing.pyx used by the native replay (validated: native pops/trees must agree with the symbolic record on every validated path); '
+          'claims are about integer-valued score matrices within the stated sentence/tag bounds')
+_A = dict(engine='A+N', note=NOTE_A)
+CLAIMED.update({
+    'C01': dict(_A, design='§8 C01', technique='symbolic execution of parsing.h (float := symbolic linear scalar) over all comparison outcomes, z3 discharges optimality/monotonicity per path against a CKY oracle; native replay',
+                text='for every score matrix within the sentence/tag bounds: every feasible path of the real parse_sentence returns a parse no oracle derivation beats, fails only if none exists (or the step budget ran out), and pops agenda items in non-increasing priority'),
+    'C02': dict(_A, design='§8 C02', technique='symbolic execution of parsing.h partitions score space; per path the back-pointer tree is validated symbolically and the Tree delivered by the real finalizer for a solver witness is validated natively',
+                text='every tree the search/finalizer returns on any explored path is a licensed derivation over the admitted tags with an allowed root, carries the input tokens in order, and equals the search record; failures yield only the placeholder'),
+    'C09': dict(_A, design='§8 C09', technique='symbolic execution of parsing.h; z3 proves reported score term == term recomputed from the returned tree on every path; native recomputation from the delivered Tree (head flags as delivered)',
+                text='on every explored path the score attached to every returned tree equals tags + dependencies by head flags + root attachment - penalty per unary node, symbolically for the back-pointer tree and numerically for the delivered Tree objects'),
+    'C10': dict(_A, design='§8 C10', technique='symbolic execution of parsing.h with nbest 2-3; z3 discharges count/order/k-largest against the CKY oracle per path; native replay',
+                text='for every score matrix within the bounds the n-best list has min(k, #derivations) pairwise different trees in non-increasing order whose scores dominate every derivation not returned'),
+    'C12': dict(_A, design='§8 C12', technique='symbolic execution of parsing.h enumerates paths; the Tree delivered by the real retrieve_tree for each path witness must carry label, symbol and head direction of the grammar result with the recorded rule id',
+                text='parser side: on every explored path every node of every delivered tree carries the creating rule\'s label/symbol/head direction, also when several results exist for the same children (reader side: not claimed yet in this build)'),
+    'C16': dict(_A, design='§8 C16', technique='symbolic execution of parsing.h incl. the beam loop (exp modelled exactly for exp/exp); z3 discharges "leaf within beam" and "failure implies no derivation inside the beam" per path; native replay',
+                text='for every tag-score matrix within the bounds, every pruning_size in 1..3 and beta in {0.5,0.05,1e-5} or filter off: no returned tree uses a tag outside the stated beam, and a parse fails only if no derivation lies inside the tie-strict beam'),
+})
 REASONS = {}
 def main():
     checks = []
